@@ -339,6 +339,8 @@ func (c *c11Case) Run(ctx *core.Ctx) {
 			case "bare":
 			case "tmpl":
 				b.WriteString("<template>")
+			case "onceroot": // the file starts with a <template v-once> (styles emitted once); the includes follow it
+				b.WriteString("<template v-once><style>.k{}</style></template>")
 			default:
 				b.WriteString("<section>x")
 			}
@@ -361,7 +363,7 @@ func (c *c11Case) Run(ctx *core.Ctx) {
 				}
 			}
 			switch c.Wrap {
-			case "bare":
+			case "bare", "onceroot":
 			case "tmpl":
 				b.WriteString("</template>")
 			default:
@@ -597,7 +599,7 @@ func init() {
 			fmt.Sprintf("(1b) %d registered functions of every shape (fixed, variadic, context-taking, with error / comma-ok / three / no results, array, slice, map, pointer, struct, func and interface parameters, nil entries, values that are not functions) x %d call forms (call with 0..3 arguments, pipes with and without arguments, v-if, :attr, v-for) x the same values as argument; ", len(c11Funcs), len(c11CallForms)) +
 			"(1d) engines constructed with every ordered selection of <=3 options out of {WithFS, WithFS(nil), WithComponents, WithLessProcessor, WithFuncs, WithFuncs(nil), WithProcessor} through New, NewFS(fs) and NewFS(nil), followed by a string render, a file render and a render of a missing file; " +
 			"(1c) templates of 31 nesting depths from 1 to 600 (around 16, 32, 64, 128, 256, 512) as nested divs, divs with an inline sibling per level, spans, lists and a self-including component, through 4 entry points; " +
-			"(2) all include graphs over 3 files where each file includes <=2 targets in 6 modes (direct, v-if true/false, v-for, as plain slot content, as v-slot content), the includes wrapped in an element, standing bare as the first nodes of the file, or inside a <template> root: must return, with an error iff a cycle is reachable; (3) every token string up to the bound over a 23-token alphabet as template source (string / file / Vue.Render) and as front-matter; (4) @import graphs behind the LESS processor - chains, cycles, files importing themselves once and twice, a missing file, diamonds - over 1..150 files called *.less and *.css: a cycle ends in an error, everything ends; (5) layout cycles of 5 shapes (the page naming itself, through a layout back to the page, a layout naming itself, two layouts, a cyclic layout rendered as the page) whose members use the content once, twice, three times: an error, and no file opened more than 60 times. " +
+			"(2) all include graphs over 3 files where each file includes <=2 targets in 6 modes (direct, v-if true/false, v-for, as plain slot content, as v-slot content), the includes wrapped in an element, standing bare as the first nodes of the file, inside a <template> root, or after a <template v-once> root: must return, with an error iff a cycle is reachable; (3) every token string up to the bound over a 23-token alphabet as template source (string / file / Vue.Render) and as front-matter; (4) @import graphs behind the LESS processor - chains, cycles, files importing themselves once and twice, a missing file, diamonds - over 1..150 files called *.less and *.css: a cycle ends in an error, everything ends; (5) layout cycles of 5 shapes (the page naming itself, through a layout back to the page, a layout naming itself, two layouts, a cyclic layout rendered as the page) whose members use the content once, twice, three times: an error, and no file opened more than 60 times. " +
 			"oracle: the call returns - no panic (recovered per case), no fatal error or stack overflow (64 MiB stack cap, worker subprocess), no hang (CPU budget per case). non-trivial = all",
 		Bounds:      map[string]string{"quick": "graphs with <=1 edge per file in all modes plus 2 edges in {direct, vfor}; token strings of length <=3", "thorough": "graphs with <=1 edge per file in all 6 modes plus 2 edges in {direct, v-if, v-for, slot content}; token strings of length <=4"},
 		Assumptions: []string{"panics raised by the body of a user-registered function are the user's: the registered functions here never panic themselves", "cyclic maps/slices (not JSON-like) are not generated"},
@@ -693,6 +695,7 @@ func init() {
 						if len(a) == 1 && len(b) <= 1 && len(cc) <= 1 {
 							emit(&c11Case{Part: "graph", A: a, B: b, C: cc, Wrap: "bare"})
 							emit(&c11Case{Part: "graph", A: a, B: b, C: cc, Wrap: "tmpl"})
+							emit(&c11Case{Part: "graph", A: a, B: b, C: cc, Wrap: "onceroot"})
 						}
 					}
 				}
